@@ -22,6 +22,7 @@ import (
 	"os"
 	"path/filepath"
 	"strconv"
+	"strings"
 )
 
 type mut struct {
@@ -32,6 +33,11 @@ type mut struct {
 }
 
 func main() {
+	wave2 := false
+	if len(os.Args) > 1 && os.Args[1] == "-wave2" {
+		wave2 = true
+		os.Args = append(os.Args[:1], os.Args[2:]...)
+	}
 	src := os.Args[1]
 	out := os.Args[2]
 	fset := token.NewFileSet()
@@ -40,12 +46,49 @@ func main() {
 		panic(err)
 	}
 	var muts []mut
+	wave2ops := map[string]bool{"field": true, "idx": true, "condc": true, "unot": true, "str": true, "retswap": true}
 	add := func(pos token.Pos, op, desc string, apply func() func()) {
+		if wave2 != wave2ops[op] {
+			return
+		}
 		muts = append(muts, mut{apply, fset.Position(pos).Line, op, desc})
 	}
 	relAlt := map[token.Token][]token.Token{
 		token.LSS: {token.LEQ, token.GEQ}, token.LEQ: {token.LSS, token.GTR}, token.GTR: {token.GEQ, token.LEQ}, token.GEQ: {token.GTR, token.LSS},
 		token.EQL: {token.NEQ}, token.NEQ: {token.EQL},
+	}
+	// struct fields of the package by name -> sibling fields of identical type
+	siblings := map[string][]string{}
+	if wave2 {
+		dir := filepath.Dir(src)
+		pkgs, _ := parser.ParseDir(token.NewFileSet(), dir, func(fi os.FileInfo) bool { return !strings.HasSuffix(fi.Name(), "_test.go") }, 0)
+		for _, p := range pkgs {
+			for _, pf := range p.Files {
+				ast.Inspect(pf, func(n ast.Node) bool {
+					st, ok := n.(*ast.StructType)
+					if !ok || st.Fields == nil {
+						return true
+					}
+					type fld struct{ name, typ string }
+					var fs []fld
+					for _, f := range st.Fields.List {
+						var b bytes.Buffer
+						printer.Fprint(&b, token.NewFileSet(), f.Type)
+						for _, n := range f.Names {
+							fs = append(fs, fld{n.Name, b.String()})
+						}
+					}
+					for _, a := range fs {
+						for _, bb := range fs {
+							if a.name != bb.name && a.typ == bb.typ {
+								siblings[a.name] = append(siblings[a.name], bb.name)
+							}
+						}
+					}
+					return true
+				})
+			}
+		}
 	}
 	var visitBlock func(list *[]ast.Stmt)
 	visitBlock = func(list *[]ast.Stmt) {
@@ -114,6 +157,18 @@ func main() {
 				})
 			}
 		case *ast.BasicLit:
+			if x.Kind == token.STRING && len(x.Value) >= 4 && (x.Value[0] == '"' || x.Value[0] == '`') {
+				q := x.Value[:1]
+				body := x.Value[1 : len(x.Value)-1]
+				if !strings.HasSuffix(body, "\\") && len(body) >= 2 && body[len(body)-2] != '\\' {
+					nv := q + body[:len(body)-1] + q
+					add(x.Pos(), "str", "last character of the string dropped", func() func() {
+						old := x.Value
+						x.Value = nv
+						return func() { x.Value = old }
+					})
+				}
+			}
 			if x.Kind == token.INT {
 				v, err := strconv.ParseInt(x.Value, 0, 64)
 				if err == nil && v >= 0 && v <= 64 {
@@ -143,7 +198,75 @@ func main() {
 					return func() { x.Name = old }
 				})
 			}
+		case *ast.SelectorExpr:
+			seen := map[string]bool{}
+			for _, alt := range siblings[x.Sel.Name] {
+				alt := alt
+				if seen[alt] {
+					continue
+				}
+				seen[alt] = true
+				add(x.Sel.Pos(), "field", x.Sel.Name+" -> "+alt, func() func() {
+					old := x.Sel.Name
+					x.Sel.Name = alt
+					return func() { x.Sel.Name = old }
+				})
+			}
+		case *ast.IndexExpr:
+			for _, d := range []struct {
+				op  token.Token
+				txt string
+			}{{token.ADD, "+1"}, {token.SUB, "-1"}} {
+				d := d
+				add(x.Index.Pos(), "idx", "index "+d.txt, func() func() {
+					old := x.Index
+					x.Index = &ast.BinaryExpr{X: old, Op: d.op, Y: &ast.BasicLit{Kind: token.INT, Value: "1"}}
+					return func() { x.Index = old }
+				})
+			}
+		case *ast.SliceExpr:
+			if x.Low != nil {
+				add(x.Low.Pos(), "idx", "low bound +1", func() func() {
+					old := x.Low
+					x.Low = &ast.BinaryExpr{X: old, Op: token.ADD, Y: &ast.BasicLit{Kind: token.INT, Value: "1"}}
+					return func() { x.Low = old }
+				})
+			}
+			if x.High != nil {
+				add(x.High.Pos(), "idx", "high bound -1", func() func() {
+					old := x.High
+					x.High = &ast.BinaryExpr{X: old, Op: token.SUB, Y: &ast.BasicLit{Kind: token.INT, Value: "1"}}
+					return func() { x.High = old }
+				})
+			}
+		case *ast.UnaryExpr:
+			if x.Op == token.NOT {
+				add(x.OpPos, "unot", "'!' removed", func() func() {
+					old := x.Op
+					x.Op = token.ADD
+					// +bool does not compile: wrap instead by replacing X with !!X is no change; use paren trick
+					x.Op = old
+					inner := x.X
+					x.X = &ast.UnaryExpr{Op: token.NOT, X: inner}
+					return func() { x.X = inner }
+				})
+			}
+		case *ast.ReturnStmt:
+			if len(x.Results) == 2 {
+				add(x.Pos(), "retswap", "results swapped", func() func() {
+					x.Results[0], x.Results[1] = x.Results[1], x.Results[0]
+					return func() { x.Results[0], x.Results[1] = x.Results[1], x.Results[0] }
+				})
+			}
 		case *ast.IfStmt:
+			for _, cv := range []string{"true", "false"} {
+				cv := cv
+				add(x.Cond.Pos(), "condc", "condition replaced by "+cv, func() func() {
+					old := x.Cond
+					x.Cond = &ast.Ident{Name: cv}
+					return func() { x.Cond = old }
+				})
+			}
 			add(x.Cond.Pos(), "neg", "condition negated", func() func() {
 				old := x.Cond
 				x.Cond = &ast.UnaryExpr{Op: token.NOT, X: &ast.ParenExpr{X: old}}
